@@ -66,6 +66,11 @@ def gen_history(d, qcap, flags, lines=True, holds=True, long_history=True, line_
                 if d.below(2):
                     c["scripts"]["0" + k] = [S.mk_step(d.pick(codes), d.below(3) if k == "r" else 0, d.pick(line_tags or G.TAGS[:5])) for _ in range(d.rng(1, 3))]
             lcs.append(c)
+    for c in evs:
+        if d.unlikely(1, 6):
+            c["disable"] = 1          # a trigger is accepted whatever the command's disable flag says (C13: iff the ring has room)
+        if d.unlikely(1, 8):
+            c["only_test"] = 1
     cmds = evs + lcs
     actions = []
     step = 0
@@ -103,6 +108,9 @@ def gen_history(d, qcap, flags, lines=True, holds=True, long_history=True, line_
     cc = max(24, uc) if shared else 32
     s = S.mk_spec(cmds, input=inp, qcap=qcap, shared=shared, bufsz=2 * uc if shared else cc, ubufsz=uc,
                   rs=G.g_sched(d, 6) if inp else [], ws=G.g_sched(d, 10), actions=actions, flags=flags)
+    if evs and lcs and d.unlikely(1, 5):
+        # event commands in a group of their own that is disabled as a whole
+        s["groups"] = [dict(name=b"ev", disable=1, cmds=evs), dict(name=None, disable=0, cmds=lcs)]
     return s, nev
 
 
